@@ -42,7 +42,7 @@ Definition K_d2 (bits : N) : cfg :=
      c_tinit := 4; c_soft := 4; c_hard := 8; c_grace := 0; c_bits := bits; c_refresh2 := true; c_catch_all := true;
      c_report_first := true; c_bt := {| BT.BTModel.reset_index_in_process := true; BT.BTModel.cap0_guard := true |}; c_bt_catch := true |}.
 Definition d2_ops : list op :=
-  flat_map (fun t => [F (FClock t {| eid := N.of_nat t; ets := 0; ekind := KLog; elg := 0; elvl := 4; esz := 50; efmt := FOk |});
+  flat_map (fun t => [F (FClock t {| eid := N.of_nat t; ets := 0; ekind := KLog; elg := 0; elvl := 4; esz := 50; efmt := FOk; enamed := 0 |});
                       F (FReg t); F (FTry t); F (FExit t)]) (seq 0 256).
 Definition d2_init : st :=
   {| clock := 0; th := fun _ => thr0; registered := []; newflag := false; invalid_cnt := 0; cache := []; pc := PIdle;
